@@ -4,4 +4,8 @@ L1 == <<4>>
 L2 == <<3, 3>>
 L3 == <<2, 3, 2>>
 L4 == <<5, 4>>
+\* degenerate framings: a first segment without a root word (alone / followed by a populated segment), one-word root segments
+L0 == <<0>>
+L0b == <<0, 2>>
+L1b == <<1, 0, 2>>
 ====
